@@ -26,9 +26,66 @@ def pool():
         ('bind', 'x', 'd', ('and', ('bind', 'xx', None, ('AX', XX)), ('EX', ('bind', 'xx', None, ('AX', XX))))),
         ('bind', 'x', 'd', ('exists', 'xx', 'e', ('and', ('EX', X), ('jump', 'xx', ('EX', X))))),
         ('and', ('forall', 'x', 'd', ('EX', ('or', X, P0))), ('forall', 'x', 'd', ('AX', ('EX', ('or', X, P0))))),
+        # duplicates in the scope of a restricted outer and an unrestricted inner variable, neither occurring in them
+        ('bind', 'x', 'd', ('exists', 'xx', None, ('jump', 'xx', ('and', X, ('EF', ('and', P0, ('not', P1))))))), ('EF', ('and', P0, ('not', P1))),
+        ('bind', 'x', None, ('exists', 'xx', 'd', ('and', ('jump', 'xx', ('and', X, ('AX', W))), ('AX', W)))),
+        # duplicates with one free and one bound variable at different depths; two free variables equal up to a swap
+        ('bind', 'x', None, ('and', ('exists', 'xx', None, ('jump', 'xx', ('EX', X))), ('exists', 'xx', None, ('and', ('exists', 'xxx', None, ('jump', 'xxx', ('EX', XX))), X)))),
+        ('bind', 'x', None, ('exists', 'xx', None, ('and', ('and', ('jump', 'x', ('not', XX)), ('jump', 'x', ('EF', XX))), ('jump', 'xx', ('EF', X))))),
         ('EX', P0), ('AX', P1), ('EX', W), ('bind', 'x', None, ('AX', X)), ATTR, ('bind', 'x', 'd', ('AX', P1)), ('exists', 'x', None, ('EX', ('EX', X))),
         ('bind', 'x', None, ('exists', 'xx', None, ('and', ('EX', XX), ('jump', 'xx', ('EX', X))))),
     ]
+
+def scope_family():
+    """a closed duplicate inside a stack of quantifiers (each with / without a domain, none occurring in it) and outside,
+    in both evaluation orders"""
+    out = []
+    for stack in [('d', None), (None, 'd'), ('d', 'e'), ('d', None, None), (None, 'd', None), (None, None, 'd'), ('d',), ('e', 'd', None)]:
+        for psi in [('EF', ('and', P0, ('not', P1))), ('AX', W), ('bind', 'xxx' if len(stack) < 3 else 'x', None, ('AX', ('var', 'xxx' if len(stack) < 3 else 'x')))]:
+            if len(stack) == 3 and psi[0] == 'bind': continue
+            vs = ['x', 'xx', 'xxx'][:len(stack)]
+            body = psi
+            for v in vs: body = ('and', ('var', v), body)
+            inner = ('jump', vs[-1], body)
+            for v, d, q in reversed(list(zip(vs, stack, ['bind', 'exists', 'forall']))): inner = (q, v, d, inner if q != 'forall' else ('or', ('not', ('var', v)), inner) if False else inner)
+            out += [('and', inner, psi), ('or', psi, inner)]
+    return out
+
+VARS = ['x', 'xx', 'xxx']
+def psi_templates():
+    """duplicate candidates with 0-2 free-variable slots ('$0', '$1'); some bind a variable of their own ('NEW')"""
+    S0, S1 = ('var', '$0'), ('var', '$1')
+    return [(0, ('EF', ('and', P0, ('not', P1)))), (0, ('AX', W)), (0, ('bind', 'NEW', None, ('AX', ('var', 'NEW')))), (0, ('bind', 'NEW', None, ('AG', ('EF', ('var', 'NEW'))))),
+            (1, ('EX', S0)), (1, ('AG', ('EF', ('and', S0, W)))), (1, ('exists', 'NEW', None, ('jump', 'NEW', ('EX', S0)))), (1, ('bind', 'NEW', 'e', ('or', ('var', 'NEW'), ('EX', S0)))),
+            (2, ('and', S0, ('EX', S1))), (2, ('jump', '$0', ('EF', S1)))]
+
+def instantiate(t, slots, depth):
+    op = t[0]
+    if op == 'var': return ('var', slots[int(t[1][1:])] if t[1].startswith('$') else (VARS[depth] if t[1] == 'NEW' else t[1]))
+    if op in ('true', 'false', 'prop', 'wild'): return t
+    if op == 'jump': return ('jump', slots[int(t[1][1:])] if t[1].startswith('$') else (VARS[depth] if t[1] == 'NEW' else t[1]), instantiate(t[2], slots, depth))
+    if op in S.QUANT: return (op, VARS[depth] if t[1] == 'NEW' else t[1], t[2], instantiate(t[3], slots, depth))
+    return (op,) + tuple(instantiate(c, slots, depth) for c in t[1:])
+
+def gen_dup_formula(rng, templates, depth=4):
+    """random context with several occurrences of the same duplicate candidate at different depths / scopes / domains"""
+    def hole(scope):
+        cands = [(n, t) for n, t in templates if n <= len(scope) and (len(scope) < 3 or 'NEW' not in str(t))]
+        n, t = rng.choice(cands)
+        return instantiate(t, rng.sample(scope, n), len(scope))
+    def ctx(d, scope):
+        r = rng.random()
+        if d == 0 or r < 0.3: return hole(scope)
+        if r < 0.6 and len(scope) < 3:
+            q = rng.choice(['bind', 'exists', 'forall']); dom = rng.choice([None, None, 'd', 'e']); v = VARS[len(scope)]
+            body = ctx(d - 1, scope + [v])
+            use = rng.choice([('var', v), ('EX', ('var', v)), None, None])
+            if use is not None: body = (rng.choice(['and', 'or']), use, body)
+            if rng.random() < 0.3: body = ('jump', v, body)
+            return (q, v, dom, body)
+        if r < 0.75: return (rng.choice(['EX', 'AX', 'not', 'EF', 'AG']), ctx(d - 1, scope))
+        return (rng.choice(['and', 'or', 'imp', 'EU']), ctx(d - 1, scope), ctx(d - 1, scope))
+    return ctx(depth, [])
 
 def run(chk):
     thorough = chk.tier == 'thorough'
@@ -38,12 +95,12 @@ def run(chk):
     fs = pool()
     rng = chk.rng
     tasks = []
-    singles = fs[:14]
+    singles = fs[:20]
     # every formula alone (sharing inside one formula), then pairs / triples in both orders and with repetition
     for f in singles: tasks.append({'n': 2, 'k': max(1, S.quant_depth(f)), 'c': 0, 'entry': 'multi_ext_dirty', 'phis': [f], 'order_mode': 'global'})
     pairs = [(i, j) for i in range(len(fs)) for j in range(len(fs)) if i != j]
     rng.shuffle(pairs)
-    for (i, j) in pairs[:40 if thorough else 10]:
+    for (i, j) in pairs[:40 if thorough else 8]:
         b = [fs[i], fs[j]]
         tasks.append({'n': 2, 'k': max(S.quant_depth(f) for f in b) or 1, 'c': 0, 'entry': 'multi_ext_dirty', 'phis': b, 'order_mode': 'global'})
         tasks.append({'n': 2, 'k': max(S.quant_depth(f) for f in b) or 1, 'c': 0, 'entry': 'multi_ext_dirty', 'phis': [fs[j], fs[i], fs[j]], 'order_mode': 'global'})
@@ -54,15 +111,26 @@ def run(chk):
         for (i, j) in pairs[:12]:
             b = [fs[i], fs[j]]
             if max(S.quant_depth(f) for f in b) <= 1: tasks.append({'n': 2, 'k': 1, 'c': 1, 'entry': 'multi_ext_dirty', 'phis': b, 'order_mode': 'global', 'timeout_ms': 600000})
+    for f in scope_family():
+        if S.quant_depth(f) <= 2: tasks.append({'n': 2, 'k': S.quant_depth(f), 'c': 0, 'entry': 'multi_ext_dirty', 'phis': [f], 'order_mode': 'global', 'timeout_ms': 300000 if thorough else 40000})
+    temps = psi_templates()
+    dupf = []
+    for _ in range(300 if thorough else 50):
+        f = gen_dup_formula(rng, [rng.choice(temps[:2])] + rng.sample(temps, 2))
+        if S.depth(f) >= 3: dupf.append(f)
+    light = [f for f in dupf if S.quant_depth(f) <= 2 and len(S.ops_used(f) & {'EF', 'AG', 'EU'}) <= 1]
+    for f in light[:30 if thorough else 5]:
+        tasks.append({'n': 2, 'k': max(1, S.quant_depth(f)), 'c': 0, 'entry': 'multi_ext_dirty', 'phis': [f], 'order_mode': 'global', 'timeout_ms': 300000 if thorough else 40000})
     ET.run_tasks(chk, 'C04', tasks, signature='batch')
-    e_uni(chk, fs, thorough)
+    UC.run_family(chk, 'C04', [(['U2', 'C2'], scope_family())], entries=('ext_dirty', 'ext_multi_dirty'), signature='batch')
+    e_uni(chk, fs + dupf, thorough, n_batches=60 if thorough else 14)
 
-def e_uni(chk, fs, thorough):
+def e_uni(chk, fs, thorough, n_batches=2):
     rng = chk.rng
     rnd = [G.random_formula(rng, 3, ['v0', 'v1'], wild=('w',), doms=('d', 'e')) for _ in range(40 if thorough else 8)]
     allf = fs + rnd
     for inst in UC.instances(['U2', 'C2'] + (['M2'] if thorough else [])):
-        for rep in range(6 if thorough else 2):
+        for rep in range(n_batches):
             batch = [rng.choice(allf) for _ in range(rng.choice([2, 3, 4]))]
             if rep == 0: batch = [fs[2], fs[3], fs[2]]      # closed duplicate inside / outside a restricted scope, repeated
             k = max(S.quant_depth(f) for f in batch) or 1
